@@ -191,7 +191,7 @@ func vkECSRequest(cs vkECSCase, name string, id uint16) *dns.Msg {
 			opt.Option = append(opt.Option, &dns.EDNS0_LOCAL{Code: 65001, Data: []byte("secret-client-token")})
 		}
 	}
-	if cs.Extra == "all" {
+	if cs.Extra == "all" || cs.Extra == "twoopt" || cs.Extra == "twoopt-rev" {
 		for _, k := range []string{"cookie", "nsid", "padding", "keepalive", "unknown"} {
 			add(k)
 		}
@@ -199,6 +199,16 @@ func vkECSRequest(cs vkECSCase, name string, id uint16) *dns.Msg {
 		add(cs.Extra)
 	}
 	m.Extra = []dns.RR{opt}
+	// a query carrying TWO OPT records: the option-laden one first / last, an empty one beside it
+	// (code that looks at "the" OPT of a message sees only one of them)
+	empty := &dns.OPT{Hdr: dns.RR_Header{Name: ".", Rrtype: dns.TypeOPT}}
+	empty.SetUDPSize(1232)
+	switch cs.Extra {
+	case "twoopt":
+		m.Extra = []dns.RR{opt, empty}
+	case "twoopt-rev":
+		m.Extra = []dns.RR{empty, opt}
+	}
 	return m
 }
 
@@ -242,11 +252,15 @@ func vkOptOf(m *dns.Msg) *dns.OPT {
 
 // vkCheckUpstream judges the OPT the upstream (stub) was handed.
 func vkCheckUpstream(cs vkECSCase, up *dns.Msg) string {
-	opt := vkOptOf(up)
 	clientAddr := netip.MustParseAddrPort(cs.Client).Addr()
 	allowed := cs.Policy.allows(clientAddr)
 	var ecsSeen []*dns.EDNS0_SUBNET
-	if opt != nil {
+	// EVERY OPT record of the upstream query counts (what goes on the wire is the whole additional section)
+	for _, rr := range up.Extra {
+		opt, isOpt := rr.(*dns.OPT)
+		if !isOpt {
+			continue
+		}
 		for _, o := range opt.Option {
 			switch v := o.(type) {
 			case *dns.EDNS0_SUBNET:
@@ -391,9 +405,9 @@ func TestVerifC19Forward(t *testing.T) {
 		return
 	}
 	clients := []string{"10.1.2.3:4000", "192.0.2.9:4000", "[2001:db8::9]:4000", "[::ffff:10.1.2.3]:4000"}
-	extras := []string{"", "cookie", "all"}
+	extras := []string{"", "cookie", "all", "twoopt", "twoopt-rev"}
 	if c.Thorough() {
-		extras = []string{"", "cookie", "nsid", "padding", "keepalive", "unknown", "all"}
+		extras = []string{"", "cookie", "nsid", "padding", "keepalive", "unknown", "all", "twoopt", "twoopt-rev"}
 	}
 	i := 0
 	for pi, p := range vkECSPolicies(c.Thorough()) {
